@@ -123,6 +123,13 @@ func invoke(bin, dir string, args []string, stdin []byte, chunks []int) (procOut
 	}
 }
 
+func firstLine(s string) string {
+	if i := strings.Index(s, "\n"); i >= 0 {
+		s = s[:i]
+	}
+	return core.Truncate(s, 200)
+}
+
 var ansiRe = regexp.MustCompile("\x1b\\[[0-9;]*m")
 
 // ---- check
@@ -219,7 +226,7 @@ func executeCheck(c Case, bin, dir string, res *Result) {
 		res.HarnessErr = err.Error()
 		return
 	}
-	tr.Add("check %q -> exit %d stdout %q stderr %q ; library: %d diagnostics, %d errors, panic=%q", path, out.exit, core.Truncate(out.stdout, 600), core.Truncate(out.stderr, 200), len(ds), nerr, panicked)
+	tr.Add("check %q -> exit %d printed %v stderr %q ; library: %d diagnostics, %d errors, panic=%v", name, out.exit, multiset(parseCheckOutput(out.stdout, path)), firstLine(out.stderr), len(ds), nerr, panicked != "")
 	if panicked != "" {
 		if out.exit == 0 {
 			res.Violation = viol("check", "exit-zero-where-library-panics", "analysis panics on this text ("+panicked+") but the CLI exits 0")
@@ -447,7 +454,7 @@ func executeRun(c Case, bin, dir string, res *Result) {
 			res.HarnessErr = err.Error()
 			return
 		}
-		tr.Add("run via %s -> exit %d stdout %q stderr %q", ch, out.exit, core.Truncate(out.stdout, 500), core.Truncate(out.stderr, 300))
+		tr.Add("run via %s -> exit %d stdout %q stderr %q", ch, out.exit, core.Truncate(out.stdout, 500), firstLine(out.stderr))
 		if lr.panicked != "" {
 			if out.exit == 0 {
 				res.Violation = viol("run", "exit-zero-where-library-panics", "library panics ("+lr.panicked+") but the CLI exits 0")
